@@ -175,6 +175,10 @@ def strategy(draw, tier="quick"):
     hi = 40 if tier == "quick" else 120
     hist = draw(_history(ncallers, ntargets, 8, hi))
     case = {"comp": comp, "cfg": cfg, "nc": ncallers, "nt": ntargets, "history": hist}
+    # the component is built by its `create(...)` factory around existing target methods instead of by the constructor
+    if comp in CREATABLE and draw(st.integers(0, 2)) == 0:
+        case["via_create"] = True
+        return case
     if comp == "MethodTryProduct" and cfg["combiner"] and draw(st.booleans()):
         # a rival transaction (outside the product) also calls target 0: in a cycle it is served, the product must
         # report that its own call of target 0 did NOT succeed
@@ -241,6 +245,9 @@ def enumerate_cases(tier="quick"):
                 add(comp, {"iw": [1], "ows": [[1]] * n, "combiner": combiner, "cw": 2}, [2], [2] * n)
     for callers in (1, 2, 3):
         add("NonexclusiveWrapper", {"iw": [1], "ow": [1]}, [2] * callers, [2])
+    for c in list(cases):
+        if c["comp"] in CREATABLE:
+            cases.append({**c, "via_create": True})
     return cases
 
 
@@ -264,6 +271,42 @@ def _make_nonexclusive(iw, ow, callers):
             m.submodules.target = self.target
             for i, c in enumerate(self.method):
                 m.submodules[f"caller{i}"] = c
+            return m
+
+    return Circuit()
+
+
+CREATABLE = ("ConnectTrans", "CrossbarConnectTrans", "MethodMap", "MethodFilter", "MethodProduct", "MethodTryProduct",
+             "Collector")
+
+
+def _make_created(twid, create, attrs, has_method=True):
+    """The component built by its `create` factory around target methods that exist already.  `attrs` maps the
+    attribute names under which the targets are exposed (as required methods) to slices of the target list."""
+    from amaranth import Elaboratable
+    from transactron import TModule
+    from transactron.core import Method, Required
+
+    class Circuit(Elaboratable):
+        method: Method
+        target: Required[Method]
+        targets: Required[list[Method]]
+        method1: Required[Method]
+        method2: Required[Method]
+        methods1: Required[list[Method]]
+        methods2: Required[list[Method]]
+
+        def __init__(self):
+            ts = [Method(i=_lay(a), o=_lay(r), name=f"ext_target{k}") for k, (a, r) in enumerate(twid)]
+            self.tr = create(ts)
+            if has_method:
+                self.method = self.tr.method
+            for name, (lo, hi) in attrs.items():
+                setattr(self, name, ts[lo] if hi is None else ts[lo:hi])
+
+        def elaborate(self, platform):
+            m = TModule()
+            m.submodules.tr = self.tr
             return m
 
     return Circuit()
@@ -444,6 +487,26 @@ def run_case(case) -> Result:
     else:
         raise ValueError(comp)
 
+    if case.get("via_create") and comp in CREATABLE:
+        res.labels.append(f"{comp}:via_create")
+        if comp == "ConnectTrans":
+            create, attrs = (lambda ts: ConnectTrans.create(ts[0], ts[1])), {"method1": (0, None), "method2": (1, None)}
+        elif comp == "CrossbarConnectTrans":
+            k1 = cfg["n1"]
+            create = lambda ts: CrossbarConnectTrans.create(ts[:k1] if k1 > 1 else ts[0], ts[k1:])  # noqa: E731
+            attrs = {"methods1": (0, k1), "methods2": (k1, len(twid))}
+        elif comp == "MethodMap":
+            create, attrs = (lambda ts: MethodMap.create(ts[0], i_transform=i_tr, o_transform=o_tr)), {"target": (0, None)}
+        elif comp == "MethodFilter":
+            create = lambda ts: MethodFilter.create(ts[0], hw, default, use_condition=uc)  # noqa: E731
+            attrs = {"target": (0, None)}
+        elif comp == "MethodProduct":
+            create, attrs = (lambda ts: MethodProduct.create(ts, combiner)), {"targets": (0, len(twid))}
+        elif comp == "MethodTryProduct":
+            create, attrs = (lambda ts: MethodTryProduct.create(ts, combiner)), {"targets": (0, len(twid))}
+        else:
+            create, attrs = (lambda ts: Collector.create(ts)), {"targets": (0, len(twid))}
+        make = lambda: _make_created(twid, create, attrs, has_method=bool(cnames))  # noqa: E731
     h = Harness(make, test_circuit=test_circuit)
     checker = globals()["_check_" + comp]
     state = {"q": []}
